@@ -24,6 +24,26 @@ def build(build_dir):
     return dst
 
 
+def atomicity(src=None):
+    """the modelling decision `every public method of HandleManager is one atomic step` read off the current source: in
+    every method body `MutexLocker lock(` comes before the first use of handles / objects / handleCounter.
+    Returns (methods checked, [methods where it does not])."""
+    text = open(src or os.path.join(LIB, 'handle_mgr', 'HandleManager.cpp')).read()
+    text = re.sub(r'//[^\n]*', '', text)
+    text = re.sub(r'/\*.*?\*/', '', text, flags=re.S)
+    seen, bad = [], []
+    for m in re.finditer(r'^[^\n;{}]*\bHandleManager::(~?\w+)\s*\([^)]*\)\s*\{(.*?)^\}', text, re.S | re.M):
+        name, body = m.group(1), m.group(2)
+        if name in ('HandleManager', '~HandleManager'):
+            continue
+        seen.append(name)
+        use = re.search(r'\b(handles|objects|handleCounter)\b', body)
+        lock = re.search(r'\bMutexLocker\s+\w+\s*\(', body)
+        if use and (not lock or lock.start() > use.start()):
+            bad.append(name)
+    return seen, bad
+
+
 def gen(rng, n):
     """mostly-valid sequences: a few slots, a small pool of object pointers (so re-registration and the slot-mismatch
     branch are met), handles aimed at values already issued"""
@@ -107,7 +127,13 @@ def run(build_dir, seed, n):
             kinds[o[0]] = kinds.get(o[0], 0) + 1
     import shutil
     shutil.rmtree(work, ignore_errors=True)
+    seen, unlocked = atomicity()
+    for name in unlocked:
+        bad.append({'ops': [], 'impl': 'HandleManager::%s touches handles / objects / handleCounter before (or without) taking handlesMutex' % name,
+                    'why': 'the atomic-step assumption of HandleLife.v does not hold of HandleManager::%s (no-failing-input-found by this stream; K-thread searches for the schedule)' % name, 'no_input': True})
+    if len(seen) < 9:
+        bad.append({'ops': [], 'impl': 'methods found: %s' % seen, 'why': 'HandleManager.cpp no longer has the methods HandleLife.v models', 'no_input': True})
     cov = {'sequences': len(seqs), 'ops': sum(kinds.values()), 'ops_by_kind': kinds, 'sequences_meeting_the_mismatch_branch': reuse,
            'compared': 'every returned value, the set of live handle values (getSession / getObject probes over 1..max+2) and the next fresh handle',
-           'model_run_by': 'coqc vm_compute (one Example per sequence)'}
+           'methods_checked_to_lock_first': seen, 'model_run_by': 'coqc vm_compute (one Example per sequence)'}
     return cov, bad
